@@ -252,9 +252,14 @@ pub struct Mutation {
 /// insert an undeclared flag / `--name=value` at item boundary `at` (left of any `--` only)
 pub fn insert_foreign(line: &Line, at: usize, rng: &mut Rng) -> Mutation {
     let mut argv = line.argv.clone();
-    let (item, kind): (Vec<u8>, &'static str) = match rng.below(3) {
-        0 => (format!("--{}", FOREIGN_LONG).into_bytes(), "foreign-long"),
-        1 => (
+    let (item, kind): (Vec<u8>, &'static str) = match rng.below(7) {
+        // looks like the completion marker but is not one: an item like any other
+        6 => (
+            b"--bpaf-complete-rev=xyz".to_vec(),
+            "foreign-malformed-completion-marker",
+        ),
+        0 | 3 => (format!("--{}", FOREIGN_LONG).into_bytes(), "foreign-long"),
+        1 | 4 => (
             format!("--{}=val", FOREIGN_LONG).into_bytes(),
             "foreign-long-eq",
         ),
